@@ -35,9 +35,9 @@ CHECKS = {
             "Theorems: contains/starts-with/substring-before/after as list decompositions with the shortest prefix, substring as an IEEE window over 1-based positions, normalize-space (words, idempotence), translate (simultaneous, first occurrence), membership (UTF-8 validity preserved). "
             "Tie: facts (functions registered) + correspondence.", "5 C07, 15", ""),
     "C08": ("Coq round-trip theorem for the model parser (parse_string (render e) = Some e for every well-formed AST) + per-run grammar/handler table proofs by coqc + correspondence of the implementation with the model parser on canonical texts, other renderings and mutated strings",
-            "Theorems: the model lexer and parser read every canonical rendering of EVERY well-formed AST - steps in full or abbreviated with . .. @ implicit child and //, the parentheses the nine precedence levels require plus any number of redundant pairs around any sub-expressions, any non-empty white space between tokens - (left associativity, steps, predicates, filter expressions, calls; no bound on size, explicit fuel) back to exactly that AST, hence abbreviated forms equal their expansions and redundant parentheses and whitespace change nothing; the precedence table is a function. "
+            "Theorems: the model lexer and parser read every canonical rendering of EVERY well-formed AST - steps in full or abbreviated with . .. @ implicit child and //, the parentheses the nine precedence levels require plus any number of redundant pairs around any sub-expressions, any legal white space between tokens (any run of space/tab/CR/LF, none at all wherever the next character cannot extend the token) - (left associativity, steps, predicates, filter expressions, calls; no bound on size, explicit fuel) back to exactly that AST, hence abbreviated forms equal their expansions and redundant parentheses and whitespace change nothing; the precedence table is a function. "
             "Per run (proved by coqc on tables regenerated from the source): grammar text = generated parser tables; every production with two or more nonterminal children has a handler; handlers index only children that exist; core library registered. "
-            "Not covered by the theorem: renderings with no whitespace between tokens where XPath allows it, and the generated GLL parser itself, which is compared with the model parser on three canonical texts of every generated AST, on renderings with minimal/redundant parentheses and arbitrary whitespace, on token-boundary cases and on mutated strings.", "5 C08, 15.2",
+            "Not covered by the theorem: the generated GLL parser itself, which is compared with the model parser on six canonical texts of every generated AST (three with no optional white space), on renderings with minimal/redundant parentheses and arbitrary whitespace, on token-boundary cases and on mutated strings.", "5 C08, 15.2",
             " gogll's generation of parser.go/lexer.go from the grammar is trusted and exercised, not proved."),
     "C09": ("Coq model of the XML adapter over encoding/xml tokens + data-model theorem + correspondence on generated XML texts",
             "Theorems: for every well-formed abstract document under all serialisation choices the adapter's events are the XPath data model (declarations vs attributes, merged character data, XML declaration, DOCTYPE, top-level white space); namespace scoping of the store; a decoder error never yields a tree. "
